@@ -9,7 +9,7 @@ ALL_KINDS = ['raw', 'slru', '2q', 'arc', 'wtlfu']
 # property -> (kinds, PROP names evaluated by the trace spec, harness flags, level)
 LIST_PROPS = {
     'C01': dict(kinds=ALL_KINDS, flags=[]),
-    'C02': dict(kinds=ALL_KINDS, flags=[], variants=[('tracked', 'std'), ('string', 'zero'), ('tracked', 'ident')]),
+    'C02': dict(kinds=ALL_KINDS, flags=[], variants=[('tracked', 'std'), ('string', 'zero')]),
     'C03': dict(kinds=ALL_KINDS, flags=['--audit', '--quarantine', '--drop']),
     'C04': dict(kinds=ALL_KINDS, flags=['--tok', '--drop']),
     'C05': dict(kinds=ALL_KINDS, flags=[]),
@@ -21,6 +21,9 @@ LIST_PROPS = {
     'C12': dict(kinds=ALL_KINDS, flags=[]),
     'C13': dict(kinds=ALL_KINDS, flags=[]),
     'C15': dict(kinds=['raw'], flags=[]),
+    # clone in every reachable state, under hashers that change the hash-map iteration order
+    'C16': dict(kinds=['raw', 'slru', 'wtlfu'], flags=['--clone', '--no-ro'],
+                variants=[('tracked', 'std'), ('tracked', 'zero'), ('tracked', 'ident')], no_random_only=True, quick_max_states=1500),
 }
 
 ASSUMPTIONS = [
@@ -62,7 +65,10 @@ def stage_generate(job, work, binary, flags, seed, variant):
     else:
         drv, s = vlib.tlc_model_check(kd['mc'], inst['mc'], work.dir, tag + '-mc', emit=True, workers=job.get('workers', 4))
         job['tlc'] = s
-        extra_max = ['--max-states', str(inst['max_states'])] if inst.get('max_states') else []
+        ms = inst.get('max_states')
+        if job.get('quick_max_states'):
+            ms = min(ms or 10**9, job['quick_max_states'])
+        extra_max = ['--max-states', str(ms)] if ms else []
     job['driver'] = drv
     extra = list(extra_max) + ['--keytype', variant[0], '--hasher', variant[1]]
     if inst.get('random'):
@@ -130,11 +136,12 @@ def run_list_prop(prop, tier, seed, only_kinds=None):
         for vi, variant in enumerate(variants):
             for kind in kinds:
                 insts = INSTANCES[kind][tier]
-                if vi > 0:
-                    insts = insts[:2]            # extra key-type / hasher instantiations: first instances only
+                if vi > 0 and not spec.get('all_variants_full'):
+                    insts = insts[:1]            # extra key-type / hasher instantiations: first instances only
                 for inst in insts:
-                    jobs.append(dict(kind=kind, inst=inst, variant=variant))
-            if vi == 0:
+                    jobs.append(dict(kind=kind, inst=inst, variant=variant,
+                                     quick_max_states=spec.get('quick_max_states') if tier == 'quick' else None))
+            if vi == 0 and not spec.get('no_random_only'):
                 for ro in RANDOM_ONLY[tier]:
                     if ro['kind'] in kinds:
                         jobs.append(dict(kind=ro['kind'], inst=ro, variant=variant, random_only=True))
@@ -243,6 +250,94 @@ def replay_list(prop, path):
         work.cleanup()
 
 
+# --------------------------------------------------------------------------- C17 (cross-hasher pairs)
+C17_PAIRS = [('std', 'std2', 0), ('std', 'ident', 0), ('std', 'zero', 0), ('std', 'fnv', 0), ('std', 'std', 77)]
+
+
+def run_c17(tier, seed, replay=None):
+    prop = 'C17'
+    t0 = time.time()
+    work = vlib.Work(prop)
+    try:
+        binary = vlib.build_harness('std')
+        jobs = []
+        for kind in ALL_KINDS:
+            insts = INSTANCES[kind][tier]
+            insts = insts[:2] if tier == 'quick' else insts
+            for inst in insts:
+                jobs.append(dict(kind=kind, inst=inst, variant=('tracked', 'std')))
+        runs = sorted({(h, 0) for p in C17_PAIRS for h in p[:2]} | {(p[1], p[2]) for p in C17_PAIRS})
+
+        def gen(job):
+            kd = KINDS[job['kind']]
+            inst = job['inst']
+            job['tag'] = inst['name']
+            drv, st = vlib.tlc_model_check(kd['mc'], inst['mc'], work.dir, inst['name'] + '-mc', emit=True)
+            job['tlc'], job['driver'], job['runs'] = st, drv, {}
+            for (h, shuffle) in runs:
+                extra = ['--hasher', h, '--tok']
+                ms = inst.get('max_states')
+                if tier == 'quick':
+                    ms = min(ms or 10**9, 1200)
+                if ms:
+                    extra += ['--max-states', str(ms)]
+                if inst.get('random'):
+                    extra += ['--random', '%d,%d,%d' % (inst['random'][0], inst['random'][1], seed + 1)]
+                if shuffle:
+                    extra += ['--shuffle', str(shuffle)]
+                prefix = work.path('%s.%s%d.trace' % (inst['name'], h, shuffle))
+                r = vlib.harness_exec(binary, job['kind'], inst['cfg'], inst['keys'], drv, prefix, flags=[], extra=extra, shard=15000)
+                if r['rc'] != 0:
+                    raise ToolError('harness failed on %s: %s' % (inst['name'], r['stderr']))
+                job['runs'][(h, shuffle)] = dict(prefix=prefix, shards=vlib.list_shards(prefix), exec=r)
+            job['exec'] = job['runs'][('std', 0)]['exec']
+            job['shards'] = job['runs'][('std', 0)]['shards']
+            return job
+        vlib.pool_map(gen, jobs, 4)
+        cfg = work.path('pair.cfg')
+        vlib.write_cfg(cfg, 'TSpec', {}, post='Accepted')
+        tasks = []
+        for j in jobs:
+            for (a, b, sh) in C17_PAIRS:
+                ra, rb = j['runs'][(a, 0)], j['runs'][(b, sh)]
+                n = max(len(ra['shards']), len(rb['shards']))
+                for i in range(n):
+                    tasks.append((j, a, b, sh, ra['shards'][i] if i < len(ra['shards']) else None,
+                                  rb['shards'][i] if i < len(rb['shards']) else None))
+
+        def val(t):
+            j, a, b, sh, sa, sb = t
+            if sa is None or sb is None:
+                return [dict(kind=j['kind'], instance=j['inst']['name'], cfg=j['inst']['cfg'], op={'op': 'shard-count-mismatch'}, pair=[a, b, sh])]
+            env = {'TRACE': sa, 'TRACE2': sb}
+            out, rc, wall = vlib.run_tlc('PairTrace', cfg, work.dir, 'pair-%s-%s%d-%s' % (j['inst']['name'], b, sh, os.path.basename(sa)),
+                                         workers=1, env=env, timeout=1800, xmx='3g')
+            rej, ok = None, False
+            for line in open(out, errors='replace'):
+                m = vlib.RE_REJECT.match(line)
+                if m:
+                    rej = (int(m.group(1)), json.loads(json.loads('"%s"' % m.group(2))))
+                if 'Model checking completed. No error has been found' in line:
+                    ok = True
+            if rej:
+                idx, rec = rej
+                _, jump = vlib.read_record(sa, idx)
+                recb, _ = vlib.read_record(sb, idx)
+                d = describe(j, rec, jump, ('tracked', a))
+                d['pair'] = [a, b, sh]
+                d['other_record'] = recb
+                return [d]
+            if not ok:
+                raise ToolError('PairTrace gave no verdict: ' + out)
+            os.remove(out)
+            return []
+        res = vlib.pool_map(val, tasks, max(2, vlib.NCPU - 2))
+        viols = [d for r in res for d in r]
+        return finish(prop, tier, seed, jobs, viols, t0, work)
+    finally:
+        work.cleanup()
+
+
 # --------------------------------------------------------------------------- main
 def main(argv):
     ap = argparse.ArgumentParser()
@@ -258,6 +353,8 @@ def main(argv):
             if a.replay:
                 return replay_list(a.prop, a.replay)
             return run_list_prop(a.prop, tier, seed, a.kinds.split(',') if a.kinds else None)
+        if a.prop == 'C17':
+            return run_c17(tier, seed, a.replay)
         import extra
         if a.prop in extra.CHECKS:
             return extra.CHECKS[a.prop](tier, seed, a.replay)
